@@ -5,7 +5,7 @@ observation equality (for the second cycle).
 -/
 import XlModel.SaveBook
 import XlModel.Lemmas.SaveGrid4
-import XlModel.Lemmas.SaveCols2
+import XlModel.Lemmas.SaveCols3
 namespace XlModel.SaveBook
 open XlModel XlModel.Grid
 
@@ -62,23 +62,16 @@ theorem wire_rows_trim (x : List Char → List Char) (hx : ∀ t, LegalS t → x
 /-- one worksheet through save, the XML layer and open -/
 theorem cycle_sheet (x : List Char → List Char) (hx : ∀ t, LegalS t → x t = t) (s : Sheet) (h : SheetInv s) :
     ∃ s', openSheet (wireSheet x (saveSheet s)) = .ok s' ∧ SheetInv s' ∧ SheetEq s' s := by
-  obtain ⟨hd, ⟨lo, hc⟩, hn, hl⟩ := h
+  obtain ⟨hd, hc, hn, hl⟩ := h
+  obtain ⟨hlook, hwf⟩ := SaveCols.mergeCols_wf s.cols hc
   obtain ⟨rows', hcy, hd', habs, hattr⟩ := cycle_dense s.rows hd
   have hw : (trimRow s.rows).map (xRow x) = trimRow s.rows := wire_rows_trim x hx s.rows hl
   refine ⟨{ s with rows := rows', cols := SaveCols.mergeCols s.cols }, ?_, ?_, ?_⟩
   · simp only [openSheet, wireSheet, saveSheet, hw, hx _ hn]
     have : densify (trimRow s.rows) = .ok rows' := hcy
     simp [this, Res.map]
-  · refine ⟨hd', ⟨lo, ?_⟩, hn, ?_⟩
-    · unfold SaveCols.mergeCols
-      rw [SaveCols.sortCols_ranges lo _ hc]
-      exact SaveCols.ranges_mergeSorted lo _ hc
-    · intro i j; rw [habs i j]; exact hl i j
-  · refine ⟨rfl, rfl, habs, hattr, ?_, rfl⟩
-    intro c
-    unfold SaveCols.mergeCols
-    rw [SaveCols.sortCols_ranges lo _ hc]
-    exact SaveCols.look_mergeSorted_ranges lo _ hc c
+  · exact ⟨hd', hwf, hn, fun i j => by rw [habs i j]; exact hl i j⟩
+  · exact ⟨rfl, rfl, habs, hattr, hlook, rfl⟩
 
 theorem cycle_sheets (x : List Char → List Char) (hx : ∀ t, LegalS t → x t = t) (ss : List Sheet)
     (h : ∀ s ∈ ss, SheetInv s) :
